@@ -531,6 +531,8 @@ func checkJournal(w workload, res result, seen map[[32]byte]bool, opts crashfs.O
 }
 
 type replay struct {
+	AhtCfg   *ahtCfg  `json:"aht_cfg,omitempty"`
+	AhtPath  []int    `json:"aht_path,omitempty"`
 	TreeCfg  *treeCfg `json:"tree_cfg,omitempty"`
 	TreePath []int    `json:"tree_path,omitempty"`
 	Workload string   `json:"workload"`
@@ -571,6 +573,10 @@ func main() {
 	if c.ReplayPath != "" {
 		var r replay
 		c.LoadReplay(&r)
+		if r.AhtCfg != nil {
+			ahtJournal(*r.AhtCfg, r.AhtPath, &ahtReplay{*r.AhtCfg, r.AhtPath, r.Point, r.Desc})
+			c.Finish("replay", false)
+		}
 		if r.TreeCfg != nil {
 			treeJournal(*r.TreeCfg, r.TreePath, &treeReplay{*r.TreeCfg, r.TreePath, r.Point, r.Desc})
 			c.Finish("replay", false)
@@ -628,6 +634,21 @@ func main() {
 			md, cfgs = 6, treeCfgs
 		}
 		sm := treeStage(md, cfgs)
+		summaries = append(summaries, sm)
+		bs, _ := json.Marshal(sm)
+		fmt.Println(" ", string(bs))
+		c.Deadline = fullDeadline
+	}
+	// ---- AHT stage: recovery of the append-only hash tree on its own (10% of the budget)
+	if os.Getenv("VERIF_ONLY") == "" || os.Getenv("VERIF_ONLY") == "aht" {
+		if os.Getenv("VERIF_ONLY") == "" {
+			c.Deadline = time.Now().Add(fullDeadline.Sub(c.Start) * 10 / 100)
+		}
+		md, cfgs := 4, ahtCfgs[:3]
+		if c.Thorough() {
+			md, cfgs = 8, ahtCfgs
+		}
+		sm := ahtStage(md, cfgs)
 		summaries = append(summaries, sm)
 		bs, _ := json.Marshal(sm)
 		fmt.Println(" ", string(bs))
